@@ -164,6 +164,19 @@ pub enum UEnd {
     Open,
     Fin,
     Reset(u64),
+    /// control streams only: a proper prefix of one more frame, then FIN (RFC 9114 7.1: a frame
+    /// terminated by the end of the stream is H3_FRAME_ERROR)
+    FinInsideFrame(u8),
+}
+
+fn frame_prefix(k: u8) -> &'static [u8] {
+    match k % 5 {
+        0 => &[0x07],                   // a type alone
+        1 => &[0x07, 0x01],             // GOAWAY announcing one octet that never comes
+        2 => &[0x0d, 0x02, 0x40],       // MAX_PUSH_ID with half of its integer
+        3 => &[0x40],                   // half of a two-octet type
+        _ => &[0x21, 0x04, 0x00, 0x00], // a reserved-type frame with half of its payload
+    }
 }
 
 #[derive(Debug, Clone, PartialEq, Eq, Hash)]
@@ -204,6 +217,9 @@ fn ustream_bytes(u: &UStream) -> Vec<u8> {
         UKind::Control => {
             for t in &u.frames {
                 b.extend(ctok_bytes(*t));
+            }
+            if let UEnd::FinInsideFrame(k) = u.end {
+                b.extend_from_slice(frame_prefix(k));
             }
         }
         // the id that follows the type comes in every varint form (cut anywhere by the network)
@@ -307,6 +323,9 @@ fn control_stream_outcome(u: &UStream, h3_is_client: bool, reset_after_frames: u
         if u.end != UEnd::Open && !out.errors.contains(&rf::H3_CLOSED_CRITICAL_STREAM) {
             out.errors.push(rf::H3_CLOSED_CRITICAL_STREAM);
         }
+        if matches!(u.end, UEnd::FinInsideFrame(_)) && !out.errors.contains(&rf::H3_FRAME_ERROR) {
+            out.errors.push(rf::H3_FRAME_ERROR);
+        }
         out.none_ok = true;
         return out;
     }
@@ -314,6 +333,16 @@ fn control_stream_outcome(u: &UStream, h3_is_client: bool, reset_after_frames: u
         UEnd::Open => out.errors = full_err,
         UEnd::Fin => {
             out.errors = if full_err.is_empty() { vec![rf::H3_CLOSED_CRITICAL_STREAM] } else { full_err };
+        }
+        UEnd::FinInsideFrame(_) => {
+            out.errors = if !full_err.is_empty() {
+                full_err
+            } else if u.frames.iter().any(|t| *t == CTok::Settings) {
+                vec![rf::H3_FRAME_ERROR]
+            } else {
+                // nothing but (parts of) a frame that is not SETTINGS: either complaint is right
+                vec![rf::H3_FRAME_ERROR, rf::H3_MISSING_SETTINGS]
+            };
         }
         UEnd::Reset(_) => {
             // the frames h3 had read before the reset was sent are processed first
@@ -511,7 +540,7 @@ pub fn run_script(script: &[UStream], h3_is_client: bool, mode: &Mode, seed: u64
         }
         match u.end {
             UEnd::Open => {}
-            UEnd::Fin => steps.push(raw::step_fin(raw_side, *id)),
+            UEnd::Fin | UEnd::FinInsideFrame(_) => steps.push(raw::step_fin(raw_side, *id)),
             UEnd::Reset(c) => {
                 // the reset is sent once h3 has read the chosen prefix (type + some frames), so that
                 // what must have been processed before it is known
@@ -753,6 +782,7 @@ fn gen_stream(rng: &mut Rng) -> UStream {
         type_form: if kind == UKind::NoType { rng.usize(8) } else { *rng.pick(&[1usize, 2, 4, 8]) },
         frames: if kind == UKind::Control { gen_ctl_frames(rng, 4) } else { vec![] },
         end: match rng.below(4) {
+            0 if kind == UKind::Control && rng.bool() => UEnd::FinInsideFrame(rng.below(5) as u8),
             0 => UEnd::Fin,
             1 => UEnd::Reset(*rng.pick(&[0u64, 0x100, 0x10c])),
             _ => UEnd::Open,
@@ -769,7 +799,7 @@ fn run_case(gen: &str, index: u64, seed: u64, _tier: Tier, rep: &mut Report) {
         "single_control_sequences" => {
             let h3_is_client = index % 2 == 0;
             let frames = ctl_seq_from_index(index / 2);
-            for end in [UEnd::Open, UEnd::Fin, UEnd::Reset(0x10c)] {
+            for end in [UEnd::Open, UEnd::Fin, UEnd::Reset(0x10c), UEnd::FinInsideFrame((index % 5) as u8)] {
                 let s = vec![UStream { kind: UKind::Control, type_form: *rng.pick(&[1usize, 2, 4, 8]), id_form: 1, frames: frames.clone(), end }];
                 check_script(&s, h3_is_client, &plain, rng.next(), rep);
             }
